@@ -193,14 +193,14 @@ CONFIG = {
         "archive/tar and compress/gzip byte encodings are Section variables enc/dec/gz/gunz with the hypotheses dec (enc es) = Some es and gunz (gz s) = Some s; the digest is a Section variable H with a decidable equality (no collision-freeness is needed by the theorems; the reproducibility theorem concludes equality of entry lists, hence of bytes and digests)",
         "paths are lists of components; filepath.Join/Clean/Rel/ToSlash on the clean relative names that tarDirectory produces = list append / strip_prefix / lexnorm (hand-modelled; compared with the implementation on every generated tree, including '.', '..', '//' and trailing-slash link targets)",
         "filepath.Walk = pre-order with byte-wise sorted children (sort_tree); os.MkdirAll/OpenFile/Symlink/Chmod/umask = mkdir_all/fs_set/create_mode/chmod_mode on a path->node map (kernel semantics modelled, root user, Linux: open honours 07777, mkdir 01777, chmod via os.FileMode(header.Mode) only 0777)",
-        "hypotheses of the round-trip theorems: distinct names per directory, modes within 07777 (files) / 01777 (directories: mkdir(2) drops setuid/setgid), symlink targets relative, lexically inside the directory and passing neither through another symlink of the tree nor through a regular file (benign_tree: resolveRelToBase rejects the former by design and the latter with ENOTDIR, both depending on extraction order; the model mirrors the order dependence and is compared on such trees, the oracle judges only benign ones); absolute targets and out-and-back-in targets are outside the model (XAbsLink = unjudged); extraction escapes F10/F11 belong to C11",
+        "hypotheses of the round-trip theorems: distinct names per directory, modes within 07777 (files) / 01777 (directories: mkdir(2) drops setuid/setgid), symlink targets relative, lexically inside the directory and passing neither through another symlink of the tree nor through a regular file (benign_tree: resolveRelToBase rejects the former by design and the latter with ENOTDIR, both depending on extraction order; the model mirrors the order dependence and is compared on such trees, the oracle judges only benign ones); absolute targets and out-and-back-in targets are outside the model (XAbsLink = unjudged); the umask is within 0777 for the full-strength theorems (the kernel keeps no other bits; by a vm_compute sweep over 1024 directory modes x 512 umasks); extraction escapes belong to C11",
         "the mode of a top-level plain file is not carried by a blob descriptor at all (no tar): for plain files the theorems and the oracle speak of bytes only",
         "each added name is restored into its own directory: the round-trip theorem is per item and the generator keeps the names of one scenario relative, clean and not nested in each other (names with '..', absolute names and overlapping names are C11's subject)",
         "which of several same-content layers oras.Copy pushes is scheduling: the theorem quantifies over every pushed subset/order; in the correspondence the recorded sequence of successful named pushes is the model's input",
         "devices, fifos, xattrs, times of restored files, setuid/setgid directories and sizes above ~2.5 MiB are not exercised; the remote intermediate store is registry/remote.Repository against an in-memory registry of the harness over loopback HTTP (monolithic uploads only); hard links are exercised (Add treats them as regular files)",
     ],
-    "level_text": "Coq theorems for all directory trees (any nesting, names, contents, child order, umask, both PreservePermissions settings): extractTarDirectory applied to the entry list written by tarDirectory never fails and yields exactly the source tree as a path->node map (same paths, bytes, link targets, modes minus umask or exact), proved by tree induction with a frame invariant; invariance under filepath.Walk's sorting; descriptor digest/size/recorded tar digest and their verification on unpack; reproducible tars depend only on the tree without timestamps; after any subset/order of layer pushes covering every content, the manifest push materialises every name (restoreDuplicates), not under ForceCAS; refuted statements kept as theorems with witnesses (the directory's own mode without PreservePermissions on the current code; the pre-fix IgnoreNoName and PreservePermissions behaviours). Tied to content/file by a differential run Add -> PackManifest -> Copy -> memory / OCI layout / remote repository -> Copy -> second file store on generated trees (decoded tar headers, restored listings, descriptor equality, pushed/materialised names, tampered descriptors) and an independent oracle on the generator's own tree",
-    "level_note": "full at entry-list level; tar/gzip bytes, the digest, filepath.Walk and the kernel file system are modelled, not verified; one known finding (root-mode: the added directory itself gets 0777 minus umask without PreservePermissions) is reported as KNOWN-FINDING and carried explicitly by the proved statement (expected_impl) next to its refutation; two defects found by the check are fixed in the repository (IgnoreNoName dropped same-content files; PreservePermissions lost setuid/setgid/sticky), their pre-fix models are kept as refuted theorems",
+    "level_text": "Coq theorems for all directory trees (any nesting, names, contents, child order, any umask within 0777, both PreservePermissions settings): extractTarDirectory applied to the entry list written by tarDirectory never fails and yields exactly the source tree as a path->node map -- the directory itself included (same paths, bytes, link targets, modes minus umask or exact, nothing else), proved by tree induction with a frame invariant plus a finite sweep for the base directory's mode; invariance under filepath.Walk's sorting and under the listing order of every directory; descriptor digest/size/recorded tar digest and their verification on unpack; plain files; reproducible tars depend only on the tree without timestamps; after any subset/order of layer pushes covering every content, the manifest push materialises every name (restoreDuplicates, also with IgnoreNoName), not under ForceCAS; the three pre-fix behaviours found by this check are kept as refuted theorems about *_prefix models. Tied to content/file by a differential run Add -> PackManifest -> Copy -> memory / OCI layout / remote repository -> Copy -> second file store on generated trees (decoded tar headers, restored listings, descriptor equality, pushed/materialised names, tampered descriptors, re-ordered foreign archives), an exhaustive small scope, an independent oracle on the generator's own tree and an in-Coq vm_compute re-evaluation of sampled cases",
+    "level_note": "full at entry-list level; tar/gzip bytes, the digest, filepath.Walk and the kernel file system (root user, Linux) are modelled, not verified; three defects found by the check are fixed in the repository (IgnoreNoName dropped same-content files; PreservePermissions lost setuid/setgid/sticky; the directory's own mode was lost without PreservePermissions), their pre-fix models are kept as refuted theorems; no known findings remain",
     "technique": "machine-checked proof in Coq (tree induction, frame invariant over a path->node map, permutation invariance, induction over push sequences) + translator-regenerated annotation keys + model/implementation correspondence + independent oracle",
-    "explanation": "theorems over all trees/umasks/options about the model of tarDirectory/descriptorFromDir/pushDir/extractTarDirectory/restoreDuplicates; the extracted model and the real file store are run on the same generated scenarios and their tar entry lists, restored listings, descriptor-equality verdicts, materialised names and unpack verdicts are diffed; the oracle compares source and restored trees directly",
+    "explanation": "theorems over all trees/umasks/options about the model of tarDirectory/descriptorFromDir/pushDir/extractTarDirectory/restoreDuplicates; the extracted model and the real file store are run on the same generated scenarios (every intermediate store x SkipUnpack x ForceCAS x IgnoreNoName combination in every run) and their tar entry lists, restored listings, descriptor-equality verdicts, materialised names, unpack verdicts and extractions of re-ordered archives are diffed; the oracle compares source and restored trees directly (via Copy and via a direct Push) and separates restore-failed-* from restored-differently signatures; a sample of the cases is re-evaluated inside Coq with vm_compute (post_model hook)",
 }
